@@ -119,7 +119,7 @@ def check_renderer(rec):
         # braces / angle brackets are not Python: map {x} -> P_x and <x> -> E_x before parsing
         src = re.sub(r'\{\s*(\w+)\s*\}', r'P_\1', text)
         src = re.sub(r'<\s*([A-Za-z_]\w*)\s*>', r'E_\1', src)
-        src = src.replace('`', '')
+        src = re.sub(r'`([^`]*)`', lambda mm: repr(eval(mm.group(1))), src)   # verbatim fragments are constants
         try:
             node = ast.parse(src).body[0]
         except SyntaxError as e:
@@ -307,7 +307,7 @@ def check_equation_text(equation, stmt, names):
         return None
 
     try:
-        node = ast.parse(rhs.strip()).body[0].value
+        node = ast.parse(re.sub(r'`([^`]*)`', lambda mm: repr(eval(mm.group(1))), rhs.strip())).body[0].value
         got = R.ast_to_tree(node, leaf)
     except (SyntaxError, ValueError, IndexError) as e:
         raise Mis('c01-equation-text-unparseable', equation=equation, error=str(e))
@@ -557,6 +557,19 @@ def check_c14(rec, names, symbols, layouts, seed):
         if code != base_code:
             raise Mis(f'c14-layout-changes-code:{layout}', text=text,
                       got={s.name: s.code for s in syms if s.code}, want={s.name: s.code for s in symbols if s.code})
+        # the normal form obtained under this layout is a fixed point too
+        for sym in ([] if uses_named(rec) else syms):
+            if sym.equation is None or sym.type != Type.ENDOGENOUS or '`' in sym.equation:
+                continue
+            t2 = re.sub(r'\[t\]', '[0]', sym.equation)
+            t2 = re.sub(r'\[t([+-]\d+)\]', r'[\1]', t2)
+            try:
+                again = {s.name: s for s in parse(t2)}
+            except (ParserError, SymbolError, IndentationError) as e:
+                raise Mis(f'c14-normal-form-rejected:{layout}', equation=sym.equation, error=str(e)[:200])
+            n += 1
+            if again[sym.name].equation != sym.equation or again[sym.name].code != sym.code:
+                raise Mis(f'c14-normal-form-not-a-fixed-point:{layout}', equation=sym.equation, again=again[sym.name].equation)
     # statements are parsed independently: whole script = merge of the statements parsed one at a time
     merged: Dict[str, Any] = {}
     for s in rec['stmts']:
@@ -574,7 +587,7 @@ def check_c14(rec, names, symbols, layouts, seed):
             raise Mis('c14-permutation-changes-symbols')
     # the normal form is a fixed point (the property excludes equations with backticked period indexes)
     for sym in ([] if uses_named(rec) else symbols):
-        if sym.equation is None or sym.type != Type.ENDOGENOUS or "'" in sym.equation or '"' in sym.equation or '`' in sym.equation:
+        if sym.equation is None or sym.type != Type.ENDOGENOUS or '`' in sym.equation:
             continue
         text = re.sub(r'\[t\]', '[0]', sym.equation)
         text = re.sub(r'\[t([+-]\d+)\]', r'[\1]', text)
